@@ -314,7 +314,8 @@ def hx(b):
 
 
 VALID_SYMS = [b"a", b"b", b" ", b"\r", b"\n", b"\xc2\xa0", b"\xe2\x80\xa8", b"\xe3\x80\x80", b"\xc2\x85",
-              b"\xcc\x81", b"\xe2\x80\x8d", b"\xf0\x9f\x87\xa9", b"\x00", b"\t", b"\xc3\xa9", b"."]
+              b"\xcc\x81", b"\xe2\x80\x8d", b"\xf0\x9f\x87\xa9", b"\x00", b"\t", b"\xc3\xa9", b".",
+              b"\x7f", b"\x1a", b"\xef\xbb\xbf", b"\x0b", b"\x0c"]
 INVALID_SYMS = [b"\xe0\xa0", b"\xff", b"\xc0", b"\x80", b"\xf0\x90\x80", b"\xed\xa0\x80", b"\xf4\x90", b"\xc2"]
 # bytes / characters that are NOT line terminators but sit next to LF and CR in the code space or are line
 # breaks in other conventions: a line (in particular the unterminated last line) may end in one of them
